@@ -1018,7 +1018,7 @@ class presync(wrapper):
         return self + dict(method = 'bfill')
 
 
-    def wrapped(self, *args, **kwargs):
+    def wrapped(self, /, *args, **kwargs):
         _idx = kwargs.pop('join', self.index)
         _method = kwargs.pop('method', self.method)
         _columns = kwargs.pop('columns', self.columns)
